@@ -2916,10 +2916,12 @@ class PyCdlib:
             self._outfp_write_with_check(outfp,
                                          self.isohybrid_mbr.record(self.pvd.space_size * self.logical_block_size))
 
-        # First write out the PVDs.
+        # First write out the PVDs.  All copies carry the same modification
+        # date (copies that differ are refused when the ISO is opened).
+        mod_time = time.time()
         for pvd in self.pvds:
             outfp.seek(pvd.extent_location() * self.logical_block_size)
-            rec = pvd.record()
+            rec = pvd.record(mod_time)
             self._outfp_write_with_check(outfp, rec)
             progress.call(len(rec))
 
